@@ -272,3 +272,24 @@ CHECKS["C03"]["rule"] = (
     "truthful INVALID_* statuses, no empty / 1-state / half-built solution, C01 path oracle, no start/goal state of the other query in the path (or in "
     "the planner data right after clear()), resumed solves never lose an exact solution nor worsen the best one; ASan + LeakSanitizer at child exit. "
     "Non-trivial = a solve interrupted after >= 1 evaluation and before an exact solution, followed by a resume, a clear or a query switch.")
+
+CHECKS["C04"] = dict(
+    src="harness/C04_costs.cpp",
+    cases=dict(quick=2000, thorough=60000),
+    rule="Case = (53%) part A: optimizing planner (22 registry entries) x problem (normal scenarios of C01) x objective {path length, state-cost "
+         "integral over a generated smooth field, mechanical work, max-min clearance, weighted length+integral} x cost threshold {never satisfied, "
+         "always satisfied, generated finite} x 1..4 continued solves with evaluation budgets 50..3000: every entry of getSolutions() is re-costed "
+         "with the harness's own objective instance (stored cost never better than true, equal for planners without deferred propagation, path length "
+         ">= straight-line bound, optimized flag <=> isSatisfied(stored cost) for exact solutions, best exact cost never worsens, list sorted); "
+         "(47%) part B: multiset of 1..9 PlannerSolutions with generated (approximate, difference, optimized, cost incl. ties and infinity) under one "
+         "objective (minimizing, maximizing or none): operator< is a strict weak order on it, getSolutions() is a permutation with index_ = insertion "
+         "order, sorted by the stated rule, top-element accessors describe element 0. Non-trivial = A: >=2 solutions recorded for the query; "
+         "B: >=3 solutions mixing >=2 of the classes approximate / optimized / plain exact. Distinct = consumed byte prefix.",
+    technique="property-based testing: cost re-computation oracle on generated optimal-planning runs + model test of solution ordering",
+    level_text="Stored costs, flags and ordering are recomputed independently for generated runs of every optimizing planner and for generated "
+               "solution multisets; exploration-level.",
+    level_note="Trusted: the harness's second objective instance (same class, own construction), 1e-6 relative tolerance on cost comparisons. "
+               "All solutions of one problem definition share one objective (what planners produce).",
+    assumptions=["planners flagged 'deferred cost propagation' (RRT#, RRTX, LBTRRT, LazyLBTRRT, CForest, AnytimePathShortening) are held to the "
+                 "inequality only"],
+)
